@@ -84,8 +84,8 @@ pub fn sysv_complete<const NB: usize, const NS: usize>(class: Class, absent_quer
     }
     // symbol table (ELF32: 16 bytes, st_name first; ELF64: 24 bytes, st_name first)
     let es = if class == Class::ELF32 { 16 } else { 24 };
-    let mut syms = [0u8; 64];
-    assert!(es * (NS + 1) <= 64);
+    let mut syms = [0u8; 96];
+    assert!(es * (NS + 1) <= 96);
     i = 0;
     while i < NS {
         put_u32(&mut syms[..], es * (i + 1), (1 + 3 * i) as u32, le);
